@@ -688,7 +688,12 @@ fn render_struct_line(
             quote!(other.#field_path = #obj #ident;)
         },
         (Named(ident), None, Kind::OwnedInto | Kind::RefInto, TypeHint::Tuple) => 
-            quote!(#obj #ident,),
+            if ctx.has_post_init {
+                let index2 = Unnamed(Index { index: idx as u32, span: Span::call_site() });
+                quote!(obj.#index2 = #obj #ident;)
+            } else {
+                quote!(#obj #ident,)
+            },
         (Named(ident), None, Kind::OwnedIntoExisting | Kind::RefIntoExisting, TypeHint::Tuple) => {
             let index = Unnamed(Index { index: idx as u32, span: Span::call_site() });
             quote!(other.#index = #obj #ident;)
@@ -760,7 +765,12 @@ fn render_struct_line(
         (Named(_), Some(attr), Kind::OwnedInto | Kind::RefInto, TypeHint::Tuple) => {
             let right_field_path = get_child_field_path(&f.member);
             let right_side = attr.get_action_or(Some(&right_field_path), ctx, || quote!(#obj #right_field_path));
-            quote!(#right_side,)
+            if ctx.has_post_init {
+                let index2 = Unnamed(Index { index: idx as u32, span: Span::call_site() });
+                quote!(obj.#index2 = #right_side;)
+            } else {
+                quote!(#right_side,)
+            }
         },
         (Named(_), Some(attr), Kind::OwnedIntoExisting | Kind::RefIntoExisting, TypeHint::Tuple) => {
             let left_field_path = get_field_path(&Unnamed(Index { index: idx as u32, span: Span::call_site() }));
@@ -783,7 +793,12 @@ fn render_struct_line(
             let index = if ctx.impl_type.is_variant() { &Member::Named(format_ident!("f{}", index.index)) } else { &f.member };
             let field_path = get_child_field_path(index);
             let right_side = attr.get_action_or(Some(&field_path), ctx, || quote!(#obj #field_path));
-            quote!(#right_side,)
+            if ctx.has_post_init {
+                let index2 = Unnamed(Index { index: idx as u32, span: Span::call_site() });
+                quote!(obj.#index2 = #right_side;)
+            } else {
+                quote!(#right_side,)
+            }
         },
         (Unnamed(_), Some(attr), Kind::OwnedIntoExisting | Kind::RefIntoExisting, TypeHint::Tuple | TypeHint::Unspecified) => {
             let position = Unnamed(Index { index: idx as u32, span: Span::call_site() });
